@@ -61,3 +61,29 @@ Definition as_bop (o : rop) : option (nat * bop) :=
   | ORebuild r => Some (r, BRebuild)
   | _ => None
   end.
+
+(* the same histories on the nested-dictionary model (Model/Trie.v) *)
+From ZI Require Import Model.Trie.
+
+Definition t_bstep (W : world) (t : treg) (o : bop) : treg :=
+  match o with
+  | BRegister req p n v => t_register W t req p n v
+  | BUnregister req p n v => t_unregister W t req p n v
+  | BSubscribe req p v => t_subscribe W t req p v
+  | BUnsubscribe req p v => t_unsubscribe W t req p v
+  | BRebuild => t_rebuild W t
+  end.
+
+Definition t_brun (W : world) (ops : list bop) : treg := fold_left (t_bstep W) ops t_empty.
+
+(* the two models in lockstep: the flat model does what [bstep] does, except that rebuild() replays in
+   the enumeration order of the nested dictionaries (Model/Adapter.rebuild replays in the flat list's
+   own order, which the code cannot see) *)
+Definition lock_step (W : world) (st : treg * reg) (o : bop) : treg * reg :=
+  (t_bstep W (fst st) o,
+   match o with
+   | BRebuild => replay_into W (fresh_reg (generation (snd st)))
+                             (t_allRegistrations (fst st)) (t_allSubscriptions (fst st))
+   | _ => bstep W (snd st) o
+   end).
+Definition lock_run (W : world) (ops : list bop) : treg * reg := fold_left (lock_step W) ops (t_empty, empty_reg).
